@@ -22,9 +22,9 @@ SPEC = {
         "token level: column padding, separators and trailing blanks of the real text are not modelled; they are covered "
         "by the byte-for-byte comparison of the second serialization on the implementation (`rt`), not by the theorem",
         "coordinates are opaque tokens: the theorem assumes (hypothesis `CoordsPrintable m`, not an axiom) that every printed "
-        "coordinate token contains no `#` and is read back by the model's coordinate parser as the same rational; proved for "
-        "all |numerator|, denominator < 10^18 in `C09_coordsPrintable_of_small`? — see not_proved; float printing/parsing "
-        "(shortest round-trip decimal of f64/f32) is validated on the implementation only",
+        "coordinate token contains no `#` and is read back by the model's coordinate parser as the same rational; the "
+        "hypothesis is discharged by evaluation on the non-vacuity example; the float printing/parsing of the implementation "
+        "(shortest round-trip decimal of f64, f32 through f64) is validated on the implementation only (`rt`, `rt32`)",
         "numerals: the round trip `parseU32 (natTok v) = some v` is PROVED (lemma parseU32_natTok) from core's "
         "Nat.ofDigitChars_ten_toDigits; it needs v < 2^32, hence the hypothesis n_darts <= 2^32 (u32 dart ids)",
         "the version token (CARGO_PKG_VERSION) is a parameter of the theorem, assumed free of `#` and not starting with `[`",
@@ -252,10 +252,10 @@ def run(tier, seed):
         r1 = hv.campaign(exhaustive(3, rng), oracle_rt)
         r1["stats"]["exhaustive"] = True
         parts.append(("exhaustive n<=3 x 2 vertex patterns", r1))
-        parts.append(("random maps 5..60 darts", hv.campaign(random_maps(400, rng), oracle_rt)))
+        parts.append(("random maps 5..60 darts", hv.campaign(random_maps(1500, rng), oracle_rt)))
         parts.append(("column widths", hv.campaign(
             width_maps(rng, [8, 9, 10, 98, 99, 100, 998, 999, 1000], ["chain", "cycle", "free"]), oracle_rt)))
-        parts.append(("special floats (implementation only)", campaign_impl_only(special_cases(1500, rng), oracle_rt)))
+        parts.append(("special floats (implementation only)", campaign_impl_only(special_cases(4000, rng), oracle_rt)))
     else:
         r1 = hv.campaign(exhaustive(4, rng), oracle_rt)
         r1["stats"]["exhaustive"] = True
